@@ -155,7 +155,7 @@ def fingerprint(ordinal, width, typ="UINT"):
 
 class Valuation:
     """
-    mode: 'fp' | 'zeros' | 'ones'; ``sets`` maps occurrence ordinal -> raw bits.
+    mode: 'fp' | 'zeros' | 'ones' | 'nul' | 'nulmix'; ``sets`` maps occurrence ordinal -> raw bits.
     Structural fields take their value from ``shape`` (by full attribute name,
     then by key), default 0.
     """
@@ -181,6 +181,11 @@ class Valuation:
             return self.sets[ordinal] & ((1 << width) - 1)
         if self.mode == "zeros":
             return 0x41 if typ == "STR" else 0
+        if self.mode == "nul":  # truly all-zero bits: every text code unit is NUL
+            return 0
+        if self.mode == "nulmix" and typ == "STR":  # text with embedded NUL code units
+            self._nstr = getattr(self, "_nstr", -1) + 1
+            return 0 if self._nstr % 4 in (1, 2) else fingerprint(ordinal, width, typ)
         if self.mode == "ones":
             return (1 << width) - 1
         return fingerprint(ordinal, width, typ)
